@@ -1,10 +1,9 @@
 (* C06 -- Frame re-indexing through the block manager.  Models only (no proofs).
 
-   M_resize_blocks : TypeBlocks.resize_blocks (type_blocks.py:672-772) as it walks the blocks: the four
-       (index_ic, columns_ic) branches, the no-common single fill block, the unified + subset fancy
-       selection, the per-destination-column walk through the (block, column) directory, the per-block
-       full_for_fill + fancy assignment -- INCLUDING the missing has_common tests of the both-axes branch
-       (lines 744-745: dict(zip(None, None)); lines 757-766: assignment with iloc_src = iloc_dst = None).
+   M_resize_blocks : TypeBlocks.resize_blocks (type_blocks.py:672-776, after fix 658b4ce) as it walks the
+       blocks: the four (index_ic, columns_ic) branches, the no-common single fill block, the unified +
+       subset fancy selection, the per-destination-column walk through the (block, column) directory, the
+       per-block full_for_fill + fancy assignment guarded by has_common on each axis.
    S_resize_cols   : the same as a function of the flattened columns only (no block structure).
 
    Cells V, fill value and dtype coercions are abstract. *)
@@ -57,33 +56,6 @@ Definition is_single (t : list blk) : bool := match t with [_] => true | [] => t
 Definition rows_dtype (i : icorr) (d : dtype) : dtype := if ic_is_subset i then d else fdt d.
 Definition rows_vals (i : icorr) (d : dtype) (c : list V) : list V := M_reindex_values V i c fill (castf d).
 
-(* the both-axes branch, index not a subset (lines 757-766):
-     values = full_for_fill(b.dtype, index_ic.size, fill_value)
-     values[index_ic.iloc_dst] = b[index_ic.iloc_src]              (1-D)
-     values[index_ic.iloc_dst] = b[index_ic.iloc_src, block_col]   (2-D)
-   with NO test of index_ic.has_common: when nothing is common both ilocs are None, b[None] is the block
-   with a new leading axis, b[None, block_col] is ROW block_col of a 2-D block, and the assignment
-   broadcasts it over the whole column. *)
-Definition assign_unchecked (i : icorr) (b : blk) (block_col : nat) : res (list V) :=
-  let d := k_dtype b in
-  let size := ic_size i in
-  if ic_has_common i then
-    Ok (scatter V (ic_dst i) (map (castf d) (take V (nth block_col (k_cols b) []) (ic_src i) fill)) (repeat fill size))
-  else
-    let src : res (list V) :=
-      if k_1d b then Ok (nth 0 (k_cols b) [])
-      else if (block_col <? length (nth 0 (k_cols b) []))%nat
-           then Ok (map (fun c => nth block_col c fill) (k_cols b))
-           else Err "IndexError" in
-    match src with
-    | Err e => Err e
-    | Ok s => if Nat.eqb (length s) size then Ok (map (castf d) s)
-              else match s with
-                   | [x] => Ok (repeat (castf d x) size)
-                   | _ => Err "ValueError"
-                   end
-    end.
-
 Definition M_resize_blocks (t : list blk) (nrows : nat) (ic cc : option icorr) : res (list blk) :=
   match cc, ic with
   | None, None => Ok t
@@ -113,20 +85,19 @@ Definition M_resize_blocks (t : list blk) (nrows : nat) (ic cc : option icorr) :
                             (map (fun cl => take V cl (ic_src i) fill) (take_cols (k_cols b) (ic_src c)))]
         | _ => Err "IndexError"
         end
-      else if negb (ic_has_common c) then Err "TypeError"   (* dict(zip(None, None)) *)
       else
-        res_all (map (fun j => match dict_get j (ic_dst c) (ic_src c) with
-                               | Some s =>
-                                   let p := nth s (directory t) (0, 0)%nat in
-                                   let b := nth (fst p) t dflt_blk in
-                                   if ic_is_subset i
-                                   then Ok (mk_blk (k_dtype b) true [take V (nth (snd p) (k_cols b) []) (ic_src i) fill])
-                                   else match assign_unchecked i b (snd p) with
-                                        | Ok vs => Ok (mk_blk (fdt (k_dtype b)) true [vs])
-                                        | Err e => Err e
-                                        end
-                               | None => Ok (mk_blk fill_dtype true [repeat fill (ic_size i)])
-                               end) (seq 0 (ic_size c)))
+        (* columns_dst_to_src = dict(zip(iloc_dst, iloc_src)) if columns_ic.has_common else {} *)
+        let cdict := fun j => if ic_has_common c then dict_get j (ic_dst c) (ic_src c) else None in
+        Ok (map (fun j => match cdict j with
+                          | Some s =>
+                              let p := nth s (directory t) (0, 0)%nat in
+                              let b := nth (fst p) t dflt_blk in
+                              (* subset: b[iloc_src(, block_col)]; else full_for_fill(b.dtype, size, fill) and,
+                                 if index_ic.has_common, values[iloc_dst] = b[iloc_src(, block_col)] *)
+                              mk_blk (rows_dtype i (k_dtype b)) true
+                                     [rows_vals i (k_dtype b) (nth (snd p) (k_cols b) [])]
+                          | None => mk_blk fill_dtype true [repeat fill (ic_size i)]
+                          end) (seq 0 (ic_size c)))
   end.
 
 (* ---- the same on the flattened columns ---- *)
@@ -146,16 +117,6 @@ Definition S_resize_cols (cols : list col) (nrows : nat) (ic cc : option icorr) 
                             | Some s => S_col_rows ic (nth s cols dflt_col)
                             | None => (fill_dtype, repeat fill (rows_out nrows ic))
                             end) (seq 0 (ic_size c))
-  end.
-
-(* the inputs on which resize_blocks is layout-independent: everything except the both-axes branch with
-   exactly one axis that has nothing in common (rows: the unchecked assignment; columns: zip(None, None)) *)
-Definition resize_dom (ic cc : option icorr) : bool :=
-  match cc, ic with
-  | Some c, Some i =>
-      (negb (ic_has_common c) && negb (ic_has_common i)) ||
-      (ic_has_common c && (ic_is_subset i || ic_has_common i))
-  | _, _ => true
   end.
 
 End FrameAlign.
@@ -222,12 +183,5 @@ Definition S_frame_reindex (index columns : list A) (cols : list (col V))
   end.
 
 Definition touches (src dst : list A) : bool := existsb (fun x => mem A eqb x src) dst.
-
-(* label-level reading of resize_dom: when both axes are re-indexed, either both keep a label or none does *)
-Definition frame_dom (index columns : list A) (new_index new_columns : option (list A)) : bool :=
-  match reindexes index new_index, reindexes columns new_columns with
-  | Some di, Some dc => Bool.eqb (touches index di) (touches columns dc)
-  | _, _ => true
-  end.
 
 End FrameReindex.
